@@ -76,5 +76,71 @@ pub fn record(runs: usize, path: &str) {
             Err(p) => { out.emit(&json!({"ev": "verdict", "rust": "panic", "msg": p, "dag": [], "ty": [], "aux": [], "visits": [], "c": "not-run", "c_stage": "", "c_err": 0, "c_eval": 1, "env": ""})); done += 1; }
         }
     }
+    // the jet sweep: every Elements jet alone, `comp (comp witness jet) unit` (a jet returning a bit is followed by
+    // `verify`, so that its answer decides the verdict), under every environment of the family, on zero, all-ones,
+    // small and random arguments -- the two evaluators look the jet up in tables of their own
+    fn val_by(t: &Ty, f: &mut dyn FnMut() -> bool) -> J {
+        match t {
+            Ty::Unit => json!(["u"]),
+            Ty::Sum(a, b) => if f() { json!(["R", val_by(b, f)]) } else { json!(["L", val_by(a, f)]) },
+            Ty::Prod(a, b) => json!(["P", val_by(a, f), val_by(b, f)]),
+        }
+    }
+    let sweep_reps = 1 + runs / 2000;
+    for jet in jets.iter() {
+        let is_bit = jet.tgt == Ty::two();
+        let dag = if is_bit {
+            json!([["witness", 0, 0], ["jet", 0, 0, jet.name], ["comp", 1, 2], ["jet", 0, 0, "verify"], ["comp", 3, 4]])
+        } else {
+            json!([["witness", 0, 0], ["jet", 0, 0, jet.name], ["comp", 1, 2], ["unit", 0, 0], ["comp", 3, 4]])
+        };
+        let n = 5;
+        let mut ty = vec![J::Null; n];
+        ty[n - 1] = json!([["1"], ["1"]]);
+        let aux0 = json!(vec![json!(["none"]); n]);
+        let learned: Option<Vec<J>> = guarded(|| {
+            types::Context::with_context(|ctx| {
+                let (_, _, built) = build_typed(&ctx, Family::Elements, &dag, &json!(ty), &aux0).ok()?;
+                Some(built.iter().map(|b| { let a = b.arrow().finalize().unwrap(); json!([ty_j(&a.source), ty_j(&a.target)]) }).collect())
+            })
+        }).ok().flatten();
+        let Some(full_ty) = learned else { continue };
+        // decisions of the all-zero value, to place the "small" values' random tail
+        let mut count = 0usize;
+        val_by(&jet.src, &mut || { count += 1; false });
+        for (env_ix, (env_name, env)) in envs.iter().enumerate() {
+            for k in 0..(3 + sweep_reps) {
+                let mut i = 0usize;
+                let w = match k {
+                    0 => val_by(&jet.src, &mut || false),
+                    1 => val_by(&jet.src, &mut || true),
+                    2 => val_by(&jet.src, &mut || { i += 1; i + 3 > count && rng.bool() }),          // a number below 8
+                    3 => val_by(&jet.src, &mut || { i += 1; i + 9 > count && rng.bool() }),          // a number below 512
+                    _ => val_by(&jet.src, &mut || rng.bool()),
+                };
+                let mut auxv = vec![json!(["u"]); n];
+                auxv[0] = w;
+                let ev = guarded(|| {
+                    types::Context::with_context(|ctx| {
+                        let (redeem, _, _) = match build_typed(&ctx, Family::Elements, &dag, &json!(full_ty), &json!(auxv)) { Ok(x) => x, Err(_) => return J::Null };
+                        let (sdag, sty, saux, map) = describe(&redeem);
+                        let run = execute(&redeem, &map, &Value::unit(), env, None, true);
+                        let (pb, wb) = redeem.to_vec_with_witness();
+                        let c = c_pipeline(&pb, &wb, Some(env.c_tx_env()), Some(CHECK_NONE));
+                        let c_eval = c.get("eval").and_then(|x| x.as_i64());
+                        json!({"ev": "verdict", "dag": sdag, "ty": sty, "aux": saux, "visits": run["visits"], "rust": run["res"],
+                               "c_stage": c["stage"], "c_err": c["err"], "c_eval": c_eval.unwrap_or(1), "c": c_eval.map(c_class).unwrap_or("not-run"),
+                               "env": env_name, "msg": run.get("msg").cloned().unwrap_or(json!("")), "sweep": jet.name})
+                    })
+                });
+                let _ = env_ix;
+                match ev {
+                    Ok(J::Null) => {}
+                    Ok(e) => out.emit(&e),
+                    Err(p) => out.emit(&json!({"ev": "verdict", "rust": "panic", "msg": p, "dag": [], "ty": [], "aux": [], "visits": [], "c": "not-run", "c_stage": "", "c_err": 0, "c_eval": 1, "env": "", "sweep": jet.name})),
+                }
+            }
+        }
+    }
     let _: Option<elements::LockTime> = None;
 }
